@@ -84,13 +84,25 @@ _mrot_row = ('implies(AcqSum(generator.g, %(s)s, %(n)s // 2) %% 2 == 1, '
              'self.ps[j] == (old(self.ps)[j] + generator.p + 1 + IpowSum(%(s)s, generator.g, %(n)s // 2)) %% 4) and '
              'implies(AcqSum(generator.g, %(s)s, %(n)s // 2) %% 2 == 0, '
              'forall(k, 0, %(n)s, self.gs[j][%(i)s[k]] == old(self.gs)[j][%(i)s[k]]) and self.ps[j] == old(self.ps)[j])') % dict(s=_subj, n=_cnt, i=_idx)
+# ... which is the rotation of the WHOLE strings by the generator padded with identities (Expand): the form in which the invariant
+# proofs for states are carried out
+_EG = 'Expand(generator.g, %s, %s)' % (_M2, _n2)
+_mrot_glob = ('implies(AcqSum(%(E)s, old(self.gs)[j], len(mask)) %% 2 == 1, '
+              'forall(c, 0, cols(self.gs), self.gs[j][c] == (old(self.gs)[j][c] + %(E)s[c]) %% 2) and '
+              'self.ps[j] == (old(self.ps)[j] + generator.p + 1 + IpowSum(old(self.gs)[j], %(E)s, len(mask))) %% 4) and '
+              'implies(AcqSum(%(E)s, old(self.gs)[j], len(mask)) %% 2 == 0, '
+              'forall(c, 0, cols(self.gs), self.gs[j][c] == old(self.gs)[j][c]) and self.ps[j] == old(self.ps)[j])') % dict(E=_EG)
+_mrot_hints = [('lemma', 'mask_index', [_M2, _n2]),
+               ('forall_lemma', [('j', '0', 'rows(self.gs)')], 'expand_sums', ['generator.g', 'old(self.gs)[j]', 'mask', 'len(mask)', 'len(mask)'])]
 CONTRACTS[PA + 'PauliList.rotate_by#mask'] = dict(
     params=[('self', PLIST), ('generator', dict(PAULI, exact=False)), ('mask', 'bool1')],
     requires=['cols(self.gs) == 2 * len(mask)', 'len(generator.g) == %s' % _cnt, 'len(self.ps) == rows(self.gs)', 'bits1(generator.g)', 'bits2(self.gs)'],
     ensures=['forall(j, 0, rows(self.gs), %s)' % _mrot_row, _local, 'same_loc(result, self)',
              'same_loc(self.gs, old(self.gs)) and same_loc(self.ps, old(self.ps))',
-             'rows(self.gs) == rows(old(self.gs))', 'cols(self.gs) == cols(old(self.gs))'],
+             'rows(self.gs) == rows(old(self.gs))', 'cols(self.gs) == cols(old(self.gs))',
+             'forall(j, 0, rows(self.gs), %s)' % _mrot_glob, 'bits2(self.gs)'],
     modifies=['self.gs', 'self.ps'], returns='=self',
+    hints={'return': _mrot_hints},
 )
 CONTRACTS[PA + 'PauliList.transform_by#mask'] = dict(
     params=[('self', PLIST), ('clifford_map', CMAP), ('mask', 'bool1')],
@@ -478,3 +490,53 @@ CONTRACTS[ST + 'zero_state'] = dict(
     params=[('N', 'int')], requires=['N >= 0'], ensures=_zs + ['result.r == 0'], modifies=[], returns=STATE)
 CONTRACTS[ST + 'maximally_mixed_state'] = dict(
     params=[('N', 'int')], requires=['N >= 0'], ensures=_zs + ['result.r == N'], modifies=[], returns=STATE)
+
+# ------------------------------------------------------------------ C05 / C09: rotating a SUBSYSTEM of a state keeps the state valid
+_sE, _sN, _sog = _EG, 'len(mask)', 'old(self.gs)'
+_sR = lambda j: '(Xor(%s[%s], %s) if AcqSum(%s, %s[%s], %s) %% 2 == 1 else %s[%s])' % (_sog, j, _sE, _sE, _sog, j, _sN, _sog, j)
+CONTRACTS[PA + 'PauliList.rotate_by#mask_state'] = dict(
+    params=[('self', STATE), ('generator', dict(PAULI, exact=False)), ('mask', 'bool1')],
+    requires=['cols(self.gs) == 2 * len(mask)', 'inv_state(self.gs, self.ps, self.r, len(mask))', 'len(generator.g) == %s' % _cnt, 'bits1(generator.g)',
+              'generator.p == 0 or generator.p == 2'],
+    ensures=['rows(self.gs) == 2 * len(mask)', 'cols(self.gs) == 2 * len(mask)', 'len(self.ps) == 2 * len(mask)', 'bits2(self.gs)',
+             'gram(self.gs, len(mask))', 'forall(a, self.r, len(mask), self.ps[a] == 0 or self.ps[a] == 2)', 'same_loc(result, self)',
+             'self.r == old(self.r)'],
+    modifies=['self.gs', 'self.ps'], returns='=self',
+    hints={'return': _mrot_hints + [
+        ('assert', 'forall(j, 0, rows(self.gs), %s)' % _mrot_glob),
+        ('assert', 'bits(%s, 2 * len(mask))' % _sE),
+        ('assert_from', 'forall(a, 0, 2 * len(mask), forall(b, 0, 2 * len(mask), AcqSum(self.gs[a], self.gs[b], len(mask)) == AcqSum(%s, %s, len(mask))))' % (_sR('a'), _sR('b')),
+         ['rows(self.gs) == 2 * len(mask)', 'cols(self.gs) == 2 * len(mask)',
+          'forall(j, 0, 2 * len(mask), forall(c, 0, 2 * len(mask), self.gs[j][c] == %s[c]))' % _sR('j'),
+          ('forall_lemma', [('a', '0', '2 * len(mask)'), ('b', '0', '2 * len(mask)')], 'acqsum_ext', ['self.gs[a]', _sR('a'), 'self.gs[b]', _sN]),
+          ('forall_lemma', [('a', '0', '2 * len(mask)'), ('b', '0', '2 * len(mask)')], 'acqsum_ext', ['self.gs[b]', _sR('b'), _sR('a'), _sN])]),
+        ('assert_from', 'gram(self.gs, len(mask))',
+         ['gram(%s, %s)' % (_sog, _sN), 'rows(self.gs) == 2 * len(mask)', 'len(mask) >= 0',
+          'forall(a, 0, 2 * len(mask), forall(b, 0, 2 * len(mask), AcqSum(self.gs[a], self.gs[b], len(mask)) == AcqSum(%s, %s, len(mask))))' % (_sR('a'), _sR('b')),
+          ('forall_lemma', [('i', '0', '2 * len(mask)'), ('l', '0', '2 * len(mask)')], 'acq_bilinear', ['%s[i]' % _sog, _sE, '%s[l]' % _sog, _sN]),
+          ('forall_lemma', [('i', '0', '2 * len(mask)'), ('l', '0', '2 * len(mask)')], 'acq_bilinear', ['%s[i]' % _sog, _sE, 'Xor(%s[l], %s)' % (_sog, _sE), _sN]),
+          ('forall_lemma', [('i', '0', '2 * len(mask)')], 'acq_bilinear', ['%s[i]' % _sog, _sE, _sE, _sN]),
+          ('forall_lemma', [('i', '0', '2 * len(mask)')], 'acq_antisym', ['%s[i]' % _sog, _sE, _sN]),
+          ('lemma', 'acq_antisym', [_sE, _sE, _sN])]),
+        ('assert_from', 'forall(a, self.r, len(mask), self.ps[a] == 0 or self.ps[a] == 2)',
+         ['forall(j, 0, rows(self.gs), self.ps[j] == (old(self.ps)[j] + generator.p + 1 + IpowSum(%s[j], %s, %s)) %% 4 '
+          'if AcqSum(%s, %s[j], %s) %% 2 == 1 else self.ps[j] == old(self.ps)[j])' % (_sog, _sE, _sN, _sE, _sog, _sN),
+          'forall(a, self.r, %s, old(self.ps)[a] == 0 or old(self.ps)[a] == 2)' % _sN, 'generator.p == 0 or generator.p == 2',
+          '0 <= self.r', 'rows(self.gs) == 2 * (%s)' % _sN,
+          ('forall_lemma', [('i', '0', 'rows(self.gs)')], 'ipow_parity', ['%s[i]' % _sog, _sE, _sN]),
+          ('forall_lemma', [('i', '0', 'rows(self.gs)')], 'acq_antisym', ['%s[i]' % _sog, _sE, _sN])]),
+    ]},
+)
+
+# a local generator gate keeps a state valid (tableau invariant of C05), for every register size and every qubit tuple
+_gls_req = ['self.n != cols(obj.gs) // 2', 'cols(obj.gs) % 2 == 0', 'len(self.qubits) >= 1',
+            'forall(k, 0, len(self.qubits), 0 <= self.qubits[k] < cols(obj.gs) // 2)', _inv_obj,
+            'len(self.generator.g) == %s' % _cntL, 'bits1(self.generator.g)', 'self.generator.p == 0 or self.generator.p == 2']
+CONTRACTS[CI + 'CliffordGate.forward#generator_local_state'] = dict(
+    params=[('self', GATE_GEN_L), ('obj', STATE)], requires=_gls_req,
+    ensures=_inv_obj_post, modifies=['obj.gs', 'obj.ps'], returns='=obj',
+)
+CONTRACTS[CI + 'CliffordGate.backward#generator_local_state'] = dict(
+    params=[('self', GATE_GEN_L), ('obj', STATE)], requires=_gls_req,
+    ensures=_inv_obj_post, modifies=['obj.gs', 'obj.ps'], returns='=obj',
+)
